@@ -94,8 +94,7 @@ PATT_BROKEN_STRING = re.compile(r"""
             | \\[^0-9xu\n\r\u2028\u2029]    # escaped chars
             | \\x[0-9a-fA-F]{2}        # hex_escape_sequence
             | \\u[0-9a-fA-F]{4}        # unicode_escape_sequence
-            | \\(?:[1-7][0-7]{0,2}|[0-7]{2,3})  # octal_escape_sequence
-            | \\0                      # <NUL> (15.10.2.11)
+            | \\(?:[0-7]{3}|[0-7]{1,2}(?![0-7]))  # octal_escape_sequence, <NUL>
         )*                             # and capture them greedily
     )                                  # omit closing quote
     |
@@ -106,8 +105,7 @@ PATT_BROKEN_STRING = re.compile(r"""
             | \\[^0-9xu\n\r\u2028\u2029]    # escaped chars
             | \\x[0-9a-fA-F]{2}        # hex_escape_sequence
             | \\u[0-9a-fA-F]{4}        # unicode_escape_sequence
-            | \\(?:[1-7][0-7]{0,2}|[0-7]{2,3}) # octal_escape_sequence
-            | \\0                      # <NUL> (15.10.2.11)
+            | \\(?:[0-7]{3}|[0-7]{1,2}(?![0-7]))  # octal_escape_sequence, <NUL>
         )*                             # and capture them greedily
     )                                  # omit closing quote
 )
@@ -635,8 +633,7 @@ class Lexer(object):
                 | \\[^0-9xu\n\r\u2028\u2029]    # escaped chars
                 | \\x[0-9a-fA-F]{2}        # hex_escape_sequence
                 | \\u[0-9a-fA-F]{4}        # unicode_escape_sequence
-                | \\(?:[1-7][0-7]{0,2}|[0-7]{2,3})  # octal_escape_sequence
-                | \\0                      # <NUL> (15.10.2.11)
+                | \\(?:[0-7]{3}|[0-7]{1,2}(?![0-7]))  # octal_escape_sequence, <NUL>
             )*?                            # zero or many times
         ")                                 # must have closing double quote
         |
@@ -647,8 +644,7 @@ class Lexer(object):
                 | \\[^0-9xu\n\r\u2028\u2029]    # escaped chars
                 | \\x[0-9a-fA-F]{2}        # hex_escape_sequence
                 | \\u[0-9a-fA-F]{4}        # unicode_escape_sequence
-                | \\(?:[1-7][0-7]{0,2}|[0-7]{2,3}) # octal_escape_sequence
-                | \\0                      # <NUL> (15.10.2.11)
+                | \\(?:[0-7]{3}|[0-7]{1,2}(?![0-7]))  # octal_escape_sequence, <NUL>
             )*?                            # zero or many times
         ')                                 # must have closing single quote
     )
